@@ -52,7 +52,8 @@ def r1_pending_registered(r, facts):
                 r.require(loc in live, 'poll_inner/waker-store-unlocked', 'shared.waker is stored without the state lock', f.where(loc))
     for loc, t in f.calls_to(SET_WAKER):
         ap = access_path(eb.operand(t['args'][0]))
-        if ap and ap[1].split('.')[-1] == 'waker':
+        # the slot is the state's waker field: passed directly, or (when set_waker is a method of Shared) through the locked state
+        if ap and (ap[1].split('.')[-1] == 'waker' or 'Shared<' in (t['args'][0].get('ty') or '')):
             regsites.append(('set_waker', loc))
             r.require(loc in live, 'poll_inner/set_waker-unlocked', 'set_waker runs without the state lock', f.where(loc))
         # the waker passed is the current context's
